@@ -461,6 +461,19 @@ class Executor:
         if expect == "ok" and old is not None and old.kind != "alias" and op["api"] == "set_member":
             old_real = self.objs[old.uid]
             watchers = [(p, a) for p, a in self.real_aliases() if a._target is old_real and not _under(p, path) and a is not real]
+            # the same member seen *through* a resolved alias of its container (what `coll["alias.name"]` hands out):
+            # a caller holding such a view across the replacement must see it follow too
+            if container is not m.root and node.kind != "alias":
+                cont_real = self.objs[container.uid]
+                for p, a in self.real_aliases():
+                    if a._target is cont_real and not _under(p, path) and a is not real:
+                        try:
+                            view = a.get_member(node.name)
+                        except Exception:  # noqa: BLE001
+                            continue
+                        if view.is_alias and view._target is old_real:
+                            watchers.append(((*p, node.name), view))
+                            ctx.probe("view-through-alias-held-across-replacement")
         before = self.snapshot() if (expect != "ok" or node.kind == "alias") else None
         base = self.objs[0] if not base_path else self._lookup_real(base_path)
         ctx.steps += 1
@@ -787,6 +800,13 @@ class Executor:
                             return False
                         if not all(f is want for f in finals) or not all(v.path == f"{dotted}.{n0}" for v in views if v.is_alias):
                             ctx.fail("I3-alias-lookup", f"{dotted}.{n0}: dotted/tuple/item/chained lookups through the alias disagree or carry the wrong path")
+                            return False
+                        # (6) what such a lookup hands out is a resolved alias too: it is listed among its target's aliases
+                        # (building the view of one member can rebuild the views of its siblings, so the listed object is
+                        # some alias of that path and target, not necessarily the very object this lookup returned)
+                        reg = want.aliases.get(f"{dotted}.{n0}") if not want.is_alias else None
+                        if views[-1].is_alias and not want.is_alias and not (reg is not None and reg.is_alias and reg._target is want and reg.path == f"{dotted}.{n0}"):
+                            ctx.fail("I6-view-registration", f"{dotted}.{n0}: the alias handed out by a lookup through {dotted} is not listed in its target's aliases under its path")
                             return False
                         ctx.probe("lookups-through-alias")
                     if t is not None and not t.is_alias and t.kind.value == "class" and t.bases:
